@@ -505,6 +505,21 @@ inline MultiIndexSet getLargestCompletion(MultiIndexSet const &current, MultiInd
 /*!
  * \internal
  * \ingroup TasmanianMultiIndexManipulations
+ * \brief Returns \b true if the \b level_limits bound every direction and the largest admissible index is already in \b current or \b pending.
+ *
+ * Both sets are assumed lower complete, hence containing the index equal to the limits means
+ * that every index allowed by the limits is already present and no selection can add more.
+ * \endinternal
+ */
+inline bool isLimitSaturated(MultiIndexSet const &current, MultiIndexSet const &pending, std::vector<int> const &level_limits){
+    if (level_limits.empty()) return false;
+    for(auto l : level_limits) if (l < 0) return false; // unrestricted direction, can always grow
+    return not (current.missing(level_limits) and pending.missing(level_limits));
+}
+
+/*!
+ * \internal
+ * \ingroup TasmanianMultiIndexManipulations
  * \brief For a set of \b tensors create an \b mset that contain the children of indexes in \b tensors that are missing from \b exclude and obey the \b level_limits.
  *
  * If \b limited is \b false, then the \b level_limits are ignored.
